@@ -357,6 +357,8 @@ class SplitModel(object):
         if isinstance(e, ast.Call) and norm(e.func) == "len" and len(e.args) == 1:
             if norm(e.args[0]) == "self.fragments":
                 return len(st["frags"])
+            if isinstance(e.args[0], ast.Name) and e.args[0].id in st.get("lists", {}):
+                return len(st["lists"][e.args[0].id])
             return self.length(e.args[0], st, ov)
         if isinstance(e, ast.Call) and norm(e.func) in ("min", "max") and e.args and not e.keywords:
             vals = [self.ival(a, st, ov) for a in e.args]
